@@ -28,6 +28,7 @@ from common import Check, main_wrapper, InfraError
 KEY_REDUCED = "reduced-negative-shift-scale-ge-2^15"
 KEY_POOL16 = "pool16-odd-window-ge-32993-extreme-accumulator"
 KEY_ADDSUB_F32 = "addsub-scales-float32-arithmetic-numpy2"
+KEY_POOLREG_F32 = "avgpool-ofm-scale-rounded-to-float32-numpy2"
 
 TWO52 = 1 << 52
 TWO53 = 1 << 53
@@ -163,9 +164,15 @@ def pool_worker(task):
 
     rng = random.Random(task["seed"])
     lines, meta = [], []
-    for n in task["ns"]:
-        S, sh = scaling.quantise_pooling_scale(n)
-        for bits in (8, 16):
+    if "pairs" in task:
+        entries = task["pairs"]                 # (n, S, sh, (bits, ...)) taken from emitted registers
+    else:
+        entries = []
+        for n in task["ns"]:
+            S, sh = scaling.quantise_pooling_scale(n)
+            entries.append((n, S, sh, (8, 16)))
+    for n, S, sh, bitset in entries:
+        for bits in bitset:
             vb = 8 if bits == 8 else 15     # int8/uint8 values lie in [-128, 255], int16 values in [-2^15, 2^15)
             lim = n << vb                   # |acc| <= n * 2^vb
             full = task["full8"] if bits == 8 else task["full16"]
@@ -192,7 +199,7 @@ def pool_worker(task):
             pts = sorted(pts)
             lines.append(f"poolpts {n} {S} {sh} " + " ".join(map(str, pts)))
             meta.append((n, bits, "pts", len(pts)))
-    outs = _drv(lines)
+    outs = _drv(lines) if lines else []
     res = {"evals": 0, "known": [], "bad": [], "known_n": 0}
     for (n, bits, how, cnt), o, ln in zip(meta, outs, lines):
         res["evals"] += cnt
@@ -204,7 +211,7 @@ def pool_worker(task):
             if len(res["known"]) < 2:
                 res["known"].append((n, bits, o, ln.split()[2], ln.split()[3]))
         else:
-            if len(res["bad"]) < 3:
+            if len(res["bad"]) < task.get("keep_bad", 3):
                 res["bad"].append((n, bits, o, ln.split()[2], ln.split()[3]))
             res.setdefault("nbad", 0)
             res["nbad"] = res.get("nbad", 0) + 1
@@ -603,6 +610,213 @@ def main():
     ck.count("C_wall_s", round(time.time() - t0, 1))
     ck.sample({"stage": "C", "request": reqs[1], "implementation": reals[1], "model": outs[1]})
     ck.sample({"stage": "C", "request": reqs[2], "implementation": reals[2], "model": outs[2]})
+
+    # ------------------------------------------------------------------------------------------
+    # D. what reaches the registers: generate_ofm_scaling_for_pooling / generate_scaling_for_elementwise
+    # ------------------------------------------------------------------------------------------
+    t0 = time.time()
+    from ethosu.vela import register_command_stream_generator as rg
+    from ethosu.vela import api
+
+    def fmap(dt, sc):
+        f = api.NpuFeatureMap()
+        f.data_type = dt
+        f.quantization = api.NpuQuantization(scale_f32=sc, zero_point=0)
+        return f
+
+    def regs_of(emit):
+        out = {}
+        for command, offset in emit.cmd_stream:
+            out[command & 0x3FF] = (offset, command >> 16)
+        return out
+
+    OFM_SCALE, OPA_SCALE, OPB_SCALE = (rg.cmd1.NPU_SET_OFM_SCALE.value, rg.cmd1.NPU_SET_OPA_SCALE.value, rg.cmd1.NPU_SET_OPB_SCALE.value)
+    dts = {"int8": api.NpuDataType.INT8, "uint8": api.NpuDataType.UINT8, "int16": api.NpuDataType.INT16}
+    # D1: average pool, every window h x w (h <= w <= 256), equal IFM/OFM scales
+    d1_cases = []
+    hw = [(h, w) for h in range(1, 257) for w in range(h, 257)]
+    if not thorough:
+        hw = [c for c in hw if c[0] * c[1] <= 64 or rng.random() < 0.25]
+    for (h, w) in hw:
+        if rng.random() < 0.5:
+            h, w = w, h
+        kind = "s" if rng.random() < 0.6 else rng.choice(("p", "d"))
+        d1_cases.append((h, w, rng.choice(("int8", "uint8", "int16")), kind, rand_scale32()))
+    reqs, reals, pairs = [], [], []
+    for (h, w, dt, kind, sc) in d1_cases:
+        op = api.NpuPoolingOperation(api.NpuPoolingOp.AVERAGE)
+        op.ifm = fmap(dts[dt], typed(np, kind, sc))
+        op.ofm = fmap(dts[dt], typed(np, kind, sc))
+        op.kernel = api.NpuKernel(w, h)
+        emit = rg.CommandStreamEmitter()
+        rg.generate_ofm_scaling_for_pooling(emit, op)
+        S, sh = regs_of(emit)[OFM_SCALE]
+        reqs.append(f"poolreg {kind} {h * w}")
+        reals.append(f"ok {S} {sh}")
+        pairs.append((h * w, S, sh, (16,) if dt == "int16" else (8,)))
+    outs = ck.model(reqs)
+    evaluations += len(reqs)
+    d1_mm = [i for i, (m_, r_) in enumerate(zip(outs, reals)) if m_ != r_]
+    ck.count("D1_pool_register_cases", len(reqs))
+    ck.count("D1_model_mismatch", len(d1_mm))
+    base = {"full8": 16, "full16": 3, "extra_q": 2, "extra_a": 4, "keep_bad": 1 << 30}
+    step = 512
+    dtasks = [{**base, "pairs": pairs[i:i + step], "seed": rng.getrandbits(32)} for i in range(0, len(pairs), step)]
+    dres = pool.map(pool_worker, dtasks, chunksize=1)
+    evaluations += sum(r["evals"] for r in dres)
+    ck.count("D1_pool_register_accumulator_evaluations", sum(r["evals"] for r in dres))
+    case_of = {}
+    for c, pr in zip(d1_cases, pairs):
+        case_of.setdefault((pr[0], str(pr[1]), str(pr[2])), c)
+    d1_bad = [b for r in dres for b in r["bad"]]
+    d1_known16 = [b for r in dres for b in r["known"]]
+    # a rejected register pair: is it explained by the float32 rounding of an otherwise correct pair?
+    recheck, recheck_meta = [], []
+    for (n, bits, o, S, sh) in d1_bad:
+        c = case_of.get((n, S, sh))
+        parts = o.split()
+        if c is None or parts[0] != "bad" or len(parts) != 5:
+            continue
+        Sx, shx = scaling.quantise_pooling_scale(n)
+        recheck.append(f"poolpts {n} {Sx} {shx} {parts[1]}")
+        recheck_meta.append((n, bits, o, S, sh, c, Sx, shx))
+    rout = ck.model(recheck)
+    f32_pool_known, d1_unknown = [], []
+    for meta_, o2 in zip(recheck_meta, rout):
+        n, bits, o, S, sh, c, Sx, shx = meta_
+        if c[3] == "s" and o2.startswith("ok") and int(S) != Sx:
+            f32_pool_known.append(meta_)
+        else:
+            d1_unknown.append(meta_)
+    d1_unknown += [(n, bits, o, S, sh, None, None, None) for (n, bits, o, S, sh) in d1_bad if case_of.get((n, S, sh)) is None or not o.startswith("bad ") or len(o.split()) != 5]
+
+    def pool_replay(meta_):
+        n, bits, o, S, sh, c, Sx, shx = meta_
+        rp = {"n": n, "register_scale": S, "register_shift": sh, "window_bits": bits, "spec_answer": o}
+        if c is not None:
+            h, w, dt, kind, sc = c
+            tn = {"p": "float", "d": "np.float64", "s": "np.float32"}[kind]
+            rp.update({"kernel_h": h, "kernel_w": w, "data_type": dt, "scale_type": tn, "scale_hex": float(sc).hex(),
+                       "exact_pair": [Sx, shx],
+                       "replay": f"NpuPoolingOperation(AVERAGE), kernel {h}x{w}, ifm=ofm {dt} scale {tn}.fromhex({float(sc).hex()}); "
+                                 "register_command_stream_generator.generate_ofm_scaling_for_pooling"})
+        return rp
+
+    for meta_ in d1_unknown[:3]:
+        rp = pool_replay(meta_)
+        ck.violation(f"OFM_SCALE register ({meta_[3]}, {meta_[4]}) of an average pool with window size {meta_[0]}: Lean Spec rejects it: {meta_[2]}",
+                     rp, found_input=True)
+    if f32_pool_known:
+        m0 = min(f32_pool_known, key=lambda t: t[0])
+        rp = pool_replay(m0)
+        ck.violation(f"generate_ofm_scaling_for_pooling multiplies the exact pooling scale by an np.float32 rescale (NumPy >= 2: float32 result): "
+                     f"OFM_SCALE is rounded to 24 bits and no longer divides exactly, e.g. window {m0[5][0]}x{m0[5][1]}: register {m0[3]} "
+                     f"instead of {m0[6]}, {m0[2]}; {len(f32_pool_known)} of {len(d1_cases)} cases", rp, found_input=True, key=KEY_POOLREG_F32)
+    if d1_known16:
+        n, bits, o, S, sh = d1_known16[0]
+        ck.violation(f"pooling register pair, odd window >= 32993, extreme 16-bit accumulator: {o}", {"n": n, "scale": S, "shift": sh},
+                     found_input=True, key=KEY_POOL16)
+    if d1_mm and not d1_unknown:
+        i = d1_mm[0]
+        ck.violation(f"correspondence Model/Scaling.lean (poolRegistersEqualScales) vs generate_ofm_scaling_for_pooling broken on {len(d1_mm)} cases: "
+                     f"{reqs[i]} -> implementation {reals[i]}, model {outs[i]}", {"correspondence": "poolreg", "request": reqs[i],
+                     "implementation": reals[i], "model": outs[i], "case": d1_cases[i]}, found_input=False)
+    ck.count("D1_known_float32_rounded_registers", len(f32_pool_known))
+    ck.sample({"stage": "D1", "request": reqs[0], "implementation": reals[0], "model": outs[0], "case": d1_cases[0][:4]})
+
+    # D2: elementwise ADD / SUB / MUL
+    n_d2 = 30000 if thorough else 6000
+    ew_ops = {"add": api.NpuElementWiseOp.ADD, "sub": api.NpuElementWiseOp.SUB, "mul": api.NpuElementWiseOp.MUL}
+    acts = {"none": None, "tanh": api.NpuActivationOp.TANH, "sigmoid": api.NpuActivationOp.SIGMOID, "relu": api.NpuActivationOp.NONE_OR_RELU}
+    one_over_0x3000 = 1 / 0x3000
+    d2_cases, reqs, reals, spec_reqs, spec_idx = [], [], [], [], []
+    for i in range(n_d2):
+        sub = ("add", "sub", "mul")[i % 3]
+        dt = rng.choice(("int8", "uint8", "int16"))
+        kind = "s" if rng.random() < 0.65 else rng.choice(("p", "d"))
+        v = [rand_scale32() for _ in range(3)]
+        r = rng.random()
+        if r < 0.4:
+            v[1] = v[0]
+        elif r < 0.45:
+            v[1] = float(np.nextafter(np.float32(v[0]), np.float32(4.0)))
+        act = rng.choice(("none", "none", "relu", "tanh", "sigmoid"))
+        rev = 1 if rng.random() < 0.3 else 0
+        op = api.NpuElementWiseOperation(ew_ops[sub])
+        op.ifm, op.ifm2, op.ofm = (fmap(dts[dt], typed(np, kind, x)) for x in v)
+        op.reversed_operands = bool(rev)
+        if acts[act] is not None:
+            op.activation = api.NpuActivation(acts[act])
+        emit = rg.CommandStreamEmitter()
+        try:
+            ret = int(rg.generate_scaling_for_elementwise(emit, op))
+            rr = regs_of(emit)
+            opa = rr.get(OPA_SCALE)
+            opb = rr.get(OPB_SCALE)
+            ofm = rr[OFM_SCALE]
+            real = "ok " + (f"{opa[0]} {opa[1]}" if opa else "- -") + " " + (str(opb[0]) if opb else "-") + f" {ofm[0]} {ofm[1]} {ret}"
+        except OverflowError:
+            real, opa, opb, ofm, ret = "err:overflow", None, None, None, None
+        except ValueError:
+            real, opa, opb, ofm, ret = "err:value", None, None, None, None
+        except ZeroDivisionError:
+            real, opa, opb, ofm, ret = "err:zerodiv", None, None, None, None
+        # the effective output scale: a fused tanh / sigmoid fixes it to 1/0x3000 (Python float)
+        so_k, so_v = (("p", one_over_0x3000) if act in ("tanh", "sigmoid") else (kind, v[2]))
+        argstr = f"{kind} {enc(v[0])} {kind} {enc(v[1])} {so_k} {enc(so_v)}"
+        bd = 16 if dt == "int16" else 8
+        d2_cases.append((sub, dt, kind, v, act, rev))
+        if sub == "mul":
+            reqs.append(f"ewreg mul {argstr}")
+        else:
+            reqs.append(f"ewreg add {bd} {rev} {argstr}")
+        reals.append(real)
+        ck.count(f"D2_{sub}_{dt}_" + real.split()[0])
+        if ofm is not None:
+            if sub == "mul":
+                spec_reqs.append(f"ewregspec mul {argstr} {ofm[0]} {ofm[1]}")
+            else:
+                spec_reqs.append(f"ewregspec add {bd} {rev} {argstr} {opa[0]} {opa[1]} {opb[0]} {ofm[0]} {ofm[1]} {ret}")
+                ck.count("D2_branch_" + ("advanced" if opb[0] == 0 else "simplified"))
+            spec_idx.append(i)
+    outs = ck.model(reqs)
+    sp = ck.model(spec_reqs)
+    evaluations += len(reqs) + len(spec_reqs)
+    distinct += len({(c[0], c[1], c[2], tuple(c[3]), c[4], c[5]) for c in d2_cases})
+    d2_mm = [i for i, (m_, r_) in enumerate(zip(outs, reals)) if m_ != r_]
+    ck.count("D2_model_mismatch", len(d2_mm))
+    d2_known, d2_bad = [], []
+    for ci, vd in zip(spec_idx, sp):
+        ck.count("D2_spec_" + vd.replace(":", "_"))
+        if vd == "1":
+            continue
+        if d2_cases[ci][0] != "mul" and vd.endswith(":f32") and vd.split(":")[1] in ("ratio", "reference") and ci not in d2_mm:
+            d2_known.append((ci, vd))
+        else:
+            d2_bad.append((ci, vd))
+
+    def d2_replay(ci, vd):
+        sub, dt, kind, v, act, rev = d2_cases[ci]
+        tn = {"p": "float", "d": "np.float64", "s": "np.float32"}[kind]
+        return {"op": sub.upper(), "data_type": dt, "scale_type": tn, "scales_hex": [float(x).hex() for x in v], "activation": act,
+                "reversed_operands": bool(rev), "registers (opa opa_shift opb ofm ofm_shift ret)": reals[ci], "model": outs[ci],
+                "spec_verdict": vd, "replay": "NpuElementWiseOperation; register_command_stream_generator.generate_scaling_for_elementwise"}
+
+    for ci, vd in d2_bad[:3]:
+        ck.violation(f"registers of elementwise {d2_cases[ci][0].upper()} ({d2_cases[ci][1]}, scales {[float(x).hex() for x in d2_cases[ci][3]]} as "
+                     f"{d2_cases[ci][2]}): {reals[ci]}: Lean Spec verdict {vd}", d2_replay(ci, vd), found_input=True)
+    if d2_known:
+        ci, vd = d2_known[0]
+        ck.violation(f"OPA/OFM_SCALE registers of ADD/SUB with np.float32 scales carry float32 precision (verdict {vd}): {reals[ci]}; "
+                     f"{len(d2_known)} of {len(spec_idx)} register sets", d2_replay(ci, vd), found_input=True, key=KEY_ADDSUB_F32)
+    if d2_mm and not d2_bad:
+        i = d2_mm[0]
+        ck.violation(f"correspondence Model/Scaling.lean (ewRegisters*) vs generate_scaling_for_elementwise broken on {len(d2_mm)} cases: {reqs[i]} -> "
+                     f"implementation {reals[i]}, model {outs[i]}", {"correspondence": "ewreg", "request": reqs[i], "implementation": reals[i],
+                     "model": outs[i], "case": d2_replay(i, "n/a")}, found_input=False)
+    ck.count("D2_known_f32_arith", len(d2_known))
+    ck.count("D_wall_s", round(time.time() - t0, 1))
+    ck.sample({"stage": "D2", "request": reqs[0], "implementation": reals[0], "model": outs[0]})
 
     pool.close()
     pool.join()
